@@ -40,7 +40,7 @@ def gen_cases(tier, seed):
            for j, (w, sc, wh) in enumerate([(2, "default", "join"), (1, "random", "join")] + ([(4, "random", "join"), (2, "default", "join")] if tier != "quick" else []))]
     for i in range(n):
         s = env.seed_for(seed, ID, tier, i)
-        r = random.Random(s)
+        r = random.Random(env.seed_for(s, "descriptor"))  # independent of the stream run_case derives from the same seed
         d = {"seed": s, "mode": r.choice(["plain", "plain", "registry"]), "n": r.randint(2, 14 if tier == "quick" else 30),
              "W": r.choice([1, 2, 4, 8]), "sched": r.choice(["default", "random", "random"]),
              "observer": r.choice(["none", "rec", "console", "rec"]), "tier": tier}
